@@ -505,8 +505,9 @@ func runCase(w *vrt.W, i int, loc *local, perBatch int) {
 		// (3) behavioural: mutate everything reachable from the clone; the original must not
 		// change; then the other way round
 		if !failed {
-			n := snap.Scramble(cl)
+			n, nk := snap.ScrambleKeys(cl)
 			loc.add("scramble.locations_written", int64(n))
+			loc.add("scramble.locations_written_behind_map_keys", int64(nk))
 			if s2 := snap.Snapshot(orig); s2 != snapO {
 				failed = true
 				w.Violation(i, site+"/mutation-visible", fmt.Sprintf("overwriting what is reachable from the clone changed the original although no shared address was found\nexpr %s\nbefore %s\nafter  %s", e.Name, trunc(snapO, 600), trunc(s2, 600)), witness())
@@ -516,8 +517,9 @@ func runCase(w *vrt.W, i int, loc *local, perBatch int) {
 				w.Note("harness: Scramble wrote " + strconv.Itoa(n) + " locations of the clone but its snapshot did not change: " + e.Name)
 				loc.add("scramble.ineffective", 1)
 			}
-			m := snap.Scramble(orig)
+			m, mk := snap.ScrambleKeys(orig)
 			loc.add("scramble.locations_written", int64(m))
+			loc.add("scramble.locations_written_behind_map_keys", int64(mk))
 			if s3 := snap.Snapshot(cl); s3 != snapC && !failed {
 				w.Violation(i, site+"/mutation-visible", fmt.Sprintf("overwriting what is reachable from the original changed the clone although no shared address was found\nexpr %s\nbefore %s\nafter  %s", e.Name, trunc(snapC, 600), trunc(s3, 600)), witness())
 			}
@@ -536,6 +538,22 @@ func runCase(w *vrt.W, i int, loc *local, perBatch int) {
 	}
 	for _, p := range e.Pairs {
 		loc.add("pair."+p, 1)
+	}
+	for _, p := range e.MutPos {
+		loc.add("mutpos."+p, 1)
+	}
+	for _, k := range e.KeyInsts {
+		loc.add("keyinst."+k, 1)
+	}
+	for _, d := range e.KeyDepths {
+		if d > 4 {
+			d = 4
+		}
+		loc.add("keyinst_depth."+strconv.Itoa(d), 1)
+	}
+	if reachO.KeyStorage > 0 {
+		loc.add("values.with_storage_behind_map_keys", 1)
+		loc.add("key_storage_pieces", int64(reachO.KeyStorage))
 	}
 	loc.add("expr_depth."+strconv.Itoa(e.Depth), 1)
 	d := reachO.Depth
@@ -583,6 +601,21 @@ var combinators = func() []string {
 	return out
 }()
 
+// mutablePositions lists every component position of the expression grammar, written out
+// independently of the table: the floors demand that each was exercised with a component
+// that needs a deep copy.
+func mutablePositions() []string {
+	out := []string{"Ptr.0", "Slice.0", "Seq.0", "Option.0", "GoMap.0", "GoMap.1", "HCons.0", "HCons.1",
+		"Generic:Box/HCons.0", "Generic:Pair/Tuple2.0", "Generic:Pair/Tuple2.1", "Generic:Rec3/HCons.0", "Generic:Rec3/HCons.1",
+		"Generic:Bag/Slice.0", "Generic:Dict/GoMap.0", "Generic:Dict/GoMap.1", "Generic:Arr2/Tuple2.0", "Generic:Arr2/Tuple2.1", "Generic.0"}
+	for n := 2; n <= 21; n++ {
+		for i := 0; i < n; i++ {
+			out = append(out, "Tuple"+strconv.Itoa(n)+"."+strconv.Itoa(i))
+		}
+	}
+	return out
+}
+
 func main() {
 	perBatch := func(tier string) int {
 		if tier == "thorough" {
@@ -615,12 +648,13 @@ func main() {
 			}
 			w.Add("expressions_in_table", 0)
 		},
-		Rule: "case = (instance expression, value). The expressions are a compiled-in table (c18/exprs_gen.go, written by c18/gen): all leaves, every combinator directly over every combinator, all triples of Ptr/Slice/Seq/GoMap/Option, every Tuple arity 2..21 with a mutable component in every position (also under Ptr and in a Slice), hlists of length 1..8, Generic over struct/newtype representations, and PRNG expressions of combinator depth ≤ 5; case g uses expression g mod table size, so every expression gets the same number of values. The value is built reflectively from the case PRNG: nil / empty (with and without backing array) / short slices and maps, nil pointers, None, NaN/-0, and internal aliasing (the same pointer, slice or map used twice, overlapping sub-slices of one array, pointers into a slice's array). Oracles: snapshot equality with nil ≡ empty; no overlap between the memory ranges of pointer targets / slice arrays (cap>0) and no common Go map reachable from original and clone (zero-sized targets are skipped); overwriting every location reachable from the clone leaves the original's snapshot unchanged and vice versa. distinct_nontrivial counts distinct (expression, value snapshot) pairs whose value really has ≥ 2 levels of indirection (pointer hops / descents into non-empty slices or maps on one path), measured by the walker on the generated value.",
+		Rule: "case = (instance expression, value). The expressions are a compiled-in table (c18/exprs_gen.go, written by c18/gen): all leaves, every combinator directly over every combinator, all triples of Ptr/Slice/Seq/GoMap/Option, every Tuple arity 2..21 with a mutable component in every position (also under Ptr and in a Slice), hlists of length 1..8, Generic over struct/newtype/array/named-map representations with every field position mutable, GoMap KEY instances that must deep-copy (pointer keys incl. pointer to struct / pointer to pointer, pointers nested in Tuple2/Tuple3/Option/hlist keys, struct and array keys through Generic) at map depths 0..4, as map values and below every other combinator, and PRNG expressions of combinator depth ≤ 5 (a third of their maps with such a key instance); case g uses expression g mod table size, so every expression gets the same number of values. The value is built reflectively from the case PRNG: nil / empty (with and without backing array) / short slices and maps, nil pointers, None, NaN/-0, and internal aliasing (the same pointer, slice or map used twice, overlapping sub-slices of one array, pointers into a slice's array). Oracles: snapshot equality with nil ≡ empty; no overlap between the memory ranges of pointer targets / slice arrays (cap>0) and no common Go map reachable from original and clone (zero-sized targets are skipped); overwriting every location reachable from the clone — including the pointer targets behind map keys — leaves the original's snapshot unchanged and vice versa. Map keys are walked like every other component (path token {key}); mutpos.<combinator>.<i> counts the values of expressions in which component position i holds something that needs a deep copy (GoMap.0 = the key instance), with a floor for every position of the grammar. distinct_nontrivial counts distinct (expression, value snapshot) pairs whose value really has ≥ 2 levels of indirection (pointer hops / descents into non-empty slices or maps on one path), measured by the walker on the generated value.",
 		Assumptions: []string{
 			"Given is only used on value types (no pointers, slices or maps inside): it is the identity by design",
 			"instance expressions are a fixed compiled-in sample of the expression language (Go cannot instantiate generics at run time); the tiers differ in the number of values per expression",
 			"string data is immutable and is not counted as shared storage; zero-sized pointer targets have no storage",
 			"the fp.Generic To/From functions supplied by the harness are plain field copies",
+			"a map key cannot be overwritten in place: the behavioural oracle writes through the pointers inside keys and leaves the key values themselves alone; two distinct pointer keys with equal targets are two entries on both sides (snapshot entries are sorted by rendered key, then value)",
 		},
 		Floors: func(tier string) map[string]int64 {
 			f := map[string]int64{
@@ -629,9 +663,20 @@ func main() {
 				"values.built.alias_ptr": 2000, "values.built.alias_slice": 2000, "values.built.alias_map": 2000, "values.built.sub_slice": 2000,
 				"values.built.ptr_into_slice": 1000, "addresses_compared": 500000, "scramble.rounds": 250000, "distinct": 50000,
 				"expr_depth.5": 5000, "expr_depth.4": 5000, "value_indirection.4": 1000, "value_indirection.5": 500,
+				// map keys as storage: values whose maps really hold pointer targets behind their keys,
+				// locations the scramble oracle wrote through key pointers, key instances by root
+				// combinator and by the depth of the map in the expression
+				"values.with_storage_behind_map_keys": 20000, "key_storage_pieces": 40000, "scramble.locations_written_behind_map_keys": 40000,
+				"keyinst.Ptr": 5000, "keyinst.Tuple2": 3000, "keyinst.Tuple3": 400, "keyinst.Option": 2000, "keyinst.Generic": 3000, "keyinst.HCons": 1000,
+				"keyinst_depth.0": 5000, "keyinst_depth.1": 5000, "keyinst_depth.2": 3000, "keyinst_depth.3": 1000, "keyinst_depth.4": 400,
 			}
 			for _, c := range combinators {
 				f["hit."+c] = 400
+			}
+			// every component position of every combinator is exercised with a component that needs
+			// a deep copy (GoMap.0 = the key instance, HCons.0/.1 = head/tail, …)
+			for _, p := range mutablePositions() {
+				f["mutpos."+p] = 200
 			}
 			if tier == "thorough" {
 				for k := range f {
@@ -654,6 +699,38 @@ func main() {
 				}
 			}
 			cov["parent_child_combinator_pairs_observed"] = pairs
+			// component positions exercised with a component that needs a deep copy: summary instead
+			// of one counter per tuple position
+			want := mutablePositions()
+			missing := []string{}
+			minName, minVal := "", int64(-1)
+			for _, p := range want {
+				v := m.Counters["mutpos."+p]
+				if v == 0 {
+					missing = append(missing, p)
+				}
+				if minVal < 0 || v < minVal {
+					minName, minVal = p, v
+				}
+			}
+			if cs, ok := cov["counters"].(map[string]int64); ok {
+				for k := range cs {
+					if strings.HasPrefix(k, "mutpos.Tuple") {
+						delete(cs, k) // 230 tuple positions: summarised below
+					}
+				}
+			}
+			withKeys := 0
+			for _, e := range table {
+				if len(e.KeyInsts) > 0 {
+					withKeys++
+				}
+			}
+			cov["expressions_with_a_deep_copying_map_key_instance"] = withKeys
+			cov["component_positions_with_mutable_component"] = map[string]any{
+				"positions_required": len(want), "positions_missing": missing, "least_exercised": minName, "least_exercised_values": minVal,
+				"tuple_positions_required": 230,
+			}
 			if m.Cases > 0 {
 				cov["values_per_expression"] = float64(int(float64(m.Cases)/float64(len(table))*10)) / 10
 			}
